@@ -24,9 +24,11 @@ class BoxC:
         self.v = v
 
 
-def suitesparse_solve(pid):
+def suitesparse_solve(pid, lib='umfpack'):
     """SuiteSparseSolver.solve: returns A^-1 b (b itself overwritten), or an all-NaN vector when A is singular; a stale
-    symbolic factor is refreshed and the call retried; the factorize flag is cleared."""
+    symbolic factor is refreshed and the call retried; the factorize flag is cleared.  Callee contract of ``_numeric``:
+    umfpack.numeric raises ValueError for a symbolic factor of another pattern; klu.numeric does NOT (it returns a factor that
+    belongs to no matrix in particular) -- F30."""
     def symbolic(ex, st, args, kw, node):
         f = fresh('F', SYM)
         st.assume(FPAT(f) == PATTERN(args[0].term))
@@ -35,9 +37,23 @@ def suitesparse_solve(pid):
     def numeric(ex, st, args, kw, node):
         A, F = args[0].term, args[1].term
         ok_pat = FPAT(F) == PATTERN(A)
+        if lib == 'klu':
+            return Outcomes([(z3.Not(ok_pat), 'value', Opaque(fresh('factor_from_stale_symbolic', NUMOF(A).sort()))),
+                             (z3.And(ok_pat, SINGULAR(A)), 'raise', ExcVal('ArithmeticError')),
+                             (z3.And(ok_pat, z3.Not(SINGULAR(A))), 'value', Opaque(NUMOF(A)))])
         return Outcomes([(z3.Not(ok_pat), 'raise', ExcVal('ValueError')),
                          (z3.And(ok_pat, SINGULAR(A)), 'raise', ExcVal('ArithmeticError')),
                          (z3.And(ok_pat, z3.Not(SINGULAR(A))), 'value', Opaque(NUMOF(A)))])
+
+    def pattern_changed(ex, st, args, kw, node):
+        # callee contract (class invariant: the remembered pattern is the one of the cached symbolic factor)
+        return FPAT(st.load('self.F').term) != PATTERN(args[0].term)
+
+    def refresh_symbolic(ex, st, args, kw, node):
+        f = fresh('F', SYM)
+        st.assume(FPAT(f) == PATTERN(st.load('self.A').term))
+        st.store('self.F', Opaque(f))
+        return None
 
     def solve_inplace(ex, st, args, kw, node):
         A, F, N, b = args
@@ -86,6 +102,7 @@ def suitesparse_solve(pid):
                  schema={'self.factorize': TBool(), 'self.F': TOpaque('SymbolicFactor'), 'self.N': TOpaque('NumericFactor'),
                          'self.A': TOpaque('SpMat'), 'self.b': TOpaque('Vec'), 'self.A.size': TConst((3, 3))},
                  calls={'self._symbolic': symbolic, 'self._numeric': numeric, 'self._solve': solve_inplace, 'np.ravel': ravel,
+                        'self._pattern_changed': pattern_changed, 'self._refresh_symbolic': refresh_symbolic,
                         'matrix': matrix_nan, 'self.solve': recursive, '__getitem__': lambda ex, st, a, k, n: NR(fresh('aii', R)),
                         '<value>.format': lambda ex, st, a, k, n: 'msg'},
                  globals_={'matrix': Func('matrix')},
@@ -95,7 +112,35 @@ def suitesparse_solve(pid):
                  modifies=['self.*'])
     c.pre_state = pre_state
     c.merge = False
+    c.tag = lib
     return c
+
+
+def refresh_symbolic(pid):
+    """SuiteSparseSolver._refresh_symbolic establishes the class invariant used by solve(): the cached symbolic factor and the
+    remembered pattern are both those of self.A."""
+    def symbolic(ex, st, args, kw, node):
+        f = fresh('F', SYM)
+        st.assume(FPAT(f) == PATTERN(args[0].term))
+        return Opaque(f)
+
+    def get_pattern(ex, st, args, kw, node):
+        from pyvc.symval import Mark
+        return Mark('pattern-of', args[0].term)
+
+    def post(old, new, res):
+        from pyvc.symval import Mark
+        A = old.get('self.A').term
+        p_ = new.get('self._pattern')
+        return z3.And(FPAT(new.get('self.F').term) == PATTERN(A), z3.BoolVal(isinstance(p_, Mark) and p_.data[0].eq(A)))
+    return Contract(FSS, 'SuiteSparseSolver._refresh_symbolic', pid=pid, params={'self': TObj()},
+                    schema={'self.A': TOpaque('SpMat'), 'self.F': TOpaque('SymbolicFactor'), 'self._pattern': TOpaque('Any')},
+                    calls={'self._symbolic': symbolic, 'self._get_pattern': get_pattern},
+                    ensures=[('cached-symbolic-factor-and-remembered-pattern-both-belong-to-self.A', post)], modifies=['self.F', 'self._pattern'])
+
+
+# F30 (fixed): the cached symbolic factor belongs to another pattern and no refresh was requested (KLU back end)
+WIT_F30 = {'F30': lambda old, new: z3.And(z3.Not(old.z('self.factorize')), FPAT(old.get('self.F').term) != PATTERN(old.local('A').term))}
 
 
 def suitesparse_linsolve(pid, cls, lib):
@@ -193,3 +238,41 @@ def solver_dispatch(pid, meth):
                     schema={}, ghost_init={'ret': None}, calls={'self.worker.%s' % meth: worker},
                     ensures=[('returns-the-worker-result', lambda old, new, res: z3.BoolVal(res is new.st.ghost['ret']))],
                     modifies=[])
+
+
+
+def replay_solvers(obligation, model, meta):
+    """native run of the real solver classes on sequences of small systems: same pattern with new values, a new pattern with
+    another number of entries, a new pattern with the SAME number of entries, back to the first; every solve() and every
+    linsolve() must return x with A x = b (or NaN for a singular A)"""
+    import numpy as np
+    from kvxopt import spmatrix, matrix
+    from andes.linsolvers.suitesparse import KLUSolver, UMFPACKSolver
+    from andes.linsolvers.scipy import SpSolve
+    n = 4
+    seqs = [
+        ('P1', [(0, 0, 4.0), (1, 1, 3.0), (2, 2, 5.0), (3, 3, 2.0), (0, 1, 1.0), (2, 3, 1.0)]),
+        ('P1 new values', [(0, 0, 5.0), (1, 1, 2.0), (2, 2, 6.0), (3, 3, 3.0), (0, 1, -1.0), (2, 3, 2.0)]),
+        ('P2 new pattern, more entries', [(0, 0, 4.0), (1, 1, 3.0), (2, 2, 5.0), (3, 3, 2.0), (0, 1, 1.0), (2, 3, 1.0), (3, 0, 1.5)]),
+        ('P3 new pattern, same number of entries as P2', [(0, 0, 4.0), (1, 1, 3.0), (2, 2, 5.0), (3, 3, 2.0), (1, 0, 1.0), (3, 2, 1.0), (0, 3, 1.5)]),
+        ('P1 again', [(0, 0, 4.0), (1, 1, 3.0), (2, 2, 5.0), (3, 3, 2.0), (0, 1, 1.0), (2, 3, 1.0)]),
+    ]
+    b = np.array([1.0, -2.0, 3.0, 0.5])
+    for cls in (KLUSolver, UMFPACKSolver, SpSolve):
+        for mode in ('solve', 'linsolve'):
+            try:
+                solver = cls()
+            except Exception:      # back end not installed
+                continue
+            for label, trip in seqs:
+                A = spmatrix([t[2] for t in trip], [t[0] for t in trip], [t[1] for t in trip], (n, n), 'd')
+                dense = np.array(matrix(A))
+                rhs = matrix(b)
+                if cls is SpSolve and mode == 'solve':
+                    solver.factorize = True       # the SciPy back end factorises only after a refresh was requested
+                x = np.ravel(np.array(solver.solve(A, rhs) if mode == 'solve' else solver.linsolve(A, rhs)))
+                if x.shape != (n,) or not np.allclose(dense @ x, b, rtol=1e-9, atol=1e-9):
+                    return {'confirmed': True, 'inputs': {'solver': cls.__name__, 'call': mode, 'matrix': label, 'triplets': trip, 'b': b.tolist()},
+                            'observed': 'x = %r, residual %r' % (x.tolist(), float(np.max(np.abs(dense @ x - b))) if x.shape == (n,) else 'shape'),
+                            'native_cmd': '%s().%s(A, b) over a sequence of matrices on one solver object' % (cls.__name__, mode)}
+    return {'confirmed': False, 'tried': 30}
